@@ -69,7 +69,10 @@ var coqOpNames = []string{"UPos", "UNeg", "UCpl", "UNot", "UVoid", "UTypeof", "U
 	"BNullish", "BLogOr", "BLogAnd", "BBitOr", "BBitAnd", "BBitXor", "BComma",
 	"BAssign", "BAddAssign", "BSubAssign", "BMulAssign", "BDivAssign", "BRemAssign", "BPowAssign",
 	"BShlAssign", "BShrAssign", "BUShrAssign", "BBitOrAssign", "BBitAndAssign", "BBitXorAssign",
-	"BNullishAssign", "BLogOrAssign", "BLogAndAssign"}
+	"BNullishAssign", "BLogOrAssign", "BLogAndAssign", "UAwait"}
+
+// EAwait is not an operator of js_ast.OpTable; the model treats it as one more keyword prefix operator
+const opAwait = js_ast.BinOpLogicalAndAssign + 1
 
 func (e *xexpr) coq(mw bool) string {
 	switch e.k {
@@ -170,6 +173,9 @@ func (tb *treeBuilder) build(e *xexpr) js_ast.Expr {
 		}
 		return js_ast.Expr{Data: &js_ast.ECall{Target: tb.build(e.a), Args: args, Kind: kind}}
 	case xUn:
+		if e.op == opAwait {
+			return js_ast.Expr{Data: &js_ast.EAwait{Value: tb.build(e.a)}}
+		}
 		return js_ast.Expr{Data: &js_ast.EUnary{Op: e.op, Value: tb.build(e.a), WasOriginallyTypeofIdentifier: true, WasOriginallyDeleteOfIdentifierOrPropertyAccess: true}}
 	default:
 		return js_ast.Expr{Data: &js_ast.EBinary{Op: e.op, Left: tb.build(e.a), Right: tb.build(e.b)}}
@@ -209,6 +215,48 @@ func printTreeForInit(e *xexpr, minifyWhitespace bool) (string, string) {
 	return full, full[len(head):k]
 }
 
+// a top-level "await" turns the file into a module (strict code: "delete a", "with", octal ... become errors for
+// reasons outside the modelled fragment), so trees with await are checked by the correspondence only
+func containsAwait(e *xexpr) bool {
+	if e == nil {
+		return false
+	}
+	if e.k == xUn && e.op == opAwait {
+		return true
+	}
+	for _, a := range e.args {
+		if containsAwait(a) {
+			return true
+		}
+	}
+	return containsAwait(e.a) || containsAwait(e.b) || containsAwait(e.c)
+}
+
+// known finding C13-D10: the "let [" guard of the printer does not cover the head of a for / for-in loop, so
+// for-loop initialisers that start with let[ are kept out of the glue stream (they stay in the correspondence:
+// the model follows the code) and the finding has its own replay
+func startsWithLetIndex(e *xexpr) bool {
+	for e != nil {
+		switch e.k {
+		case xIndex:
+			if e.a.k == xId && e.a.s == "let" {
+				return true
+			}
+			e = e.a
+		case xDot, xCall, xCond, xBin:
+			e = e.a
+		case xUn:
+			if e.op != js_ast.UnOpPostDec && e.op != js_ast.UnOpPostInc {
+				return false
+			}
+			e = e.a
+		default:
+			return false
+		}
+	}
+	return false
+}
+
 func containsIn(e *xexpr) bool {
 	if e == nil {
 		return false
@@ -224,9 +272,9 @@ func containsIn(e *xexpr) bool {
 	return containsIn(e.a) || containsIn(e.b) || containsIn(e.c)
 }
 
-var identPool = []string{"a\U00010000", "x1\U00020000", "a", "b", "c", "x1", "$", "_", "of", "get", "set", "async", "static", "type", "as", "from", "in1", "typeofx", "voidy", "i", "n", "instance", "delete_", "Z9", "await_", "e", "E1", "x", "in_", "this", "null", "true", "false"}
+var identPool = []string{"a\U00010000", "x1\U00020000", "let", "a", "b", "c", "x1", "$", "_", "of", "get", "set", "async", "static", "type", "as", "from", "in1", "typeofx", "voidy", "i", "n", "instance", "delete_", "Z9", "await_", "e", "E1", "x", "in_", "this", "null", "true", "false"}
 
-const nTargetIdents = 29 // prefix of identPool that may be assigned to
+const nTargetIdents = 30 // prefix of identPool that may be assigned to
 
 var propPool = []string{"a", "b", "length", "x1", "$", "_p", "e", "E", "toString", "n0", "e1", "x", "of"}
 var reBodies = []string{"x", "a+", "ab*c", "=", "==", "script", "SCRIPT>", "Script x", "scrip", "(?:a|b)", " ", "a b", "^$", "-->", "<!--", "-", ".", "!--", "a+?", "a{2}"}
@@ -291,7 +339,7 @@ func genTarget(r *Rng, depth int) *xexpr {
 	return &xexpr{k: xId, s: identPool[r.Intn(nTargetIdents)]}
 }
 
-var prefixOps = []js_ast.OpCode{js_ast.UnOpPos, js_ast.UnOpNeg, js_ast.UnOpCpl, js_ast.UnOpNot, js_ast.UnOpVoid, js_ast.UnOpTypeof, js_ast.UnOpDelete, js_ast.UnOpPreDec, js_ast.UnOpPreInc}
+var prefixOps = []js_ast.OpCode{js_ast.UnOpPos, js_ast.UnOpNeg, js_ast.UnOpCpl, js_ast.UnOpNot, js_ast.UnOpVoid, js_ast.UnOpTypeof, js_ast.UnOpDelete, js_ast.UnOpPreDec, js_ast.UnOpPreInc, opAwait}
 
 // operators whose gluing is delicate get extra weight
 var hotBin = []js_ast.OpCode{js_ast.BinOpAdd, js_ast.BinOpSub, js_ast.BinOpLt, js_ast.BinOpGt, js_ast.BinOpDiv, js_ast.BinOpIn, js_ast.BinOpInstanceof, js_ast.BinOpShl, js_ast.BinOpPow, js_ast.BinOpNullishCoalescing, js_ast.BinOpLogicalOr}
@@ -488,6 +536,18 @@ func gluingGrid() []*xexpr {
 			out = append(out, bin(b, nw(id("a")), id("x")), bin(b, call(id("a")), id("x")), bin(b, nw(id("a")), nw(id("b"))))
 		}
 	}
+	// the identifier "let" (fix ac301ad): an index access on it in the leftmost position of an expression statement is printed "(let)[...]"
+	let := id("let")
+	lx := idx(let, id("x"))
+	out = append(out, let, lx, dot(let, "x"), call(let), call(let, lx), nw(let), idx(lx, id("y")), idx(dot(let, "a"), id("b")), idx(call(let), id("b")), idx(let, lx), dot(lx, "y"), call(lx), call(lx, lx), nw(lx), nw(lx, lx),
+		un(js_ast.UnOpPostInc, lx), un(js_ast.UnOpPostDec, dot(lx, "y")), un(js_ast.UnOpPreInc, lx), un(js_ast.UnOpNot, lx), un(js_ast.UnOpTypeof, lx), un(js_ast.UnOpNeg, lx),
+		cond(lx, lx, lx), cond(cond(lx, id("a"), id("b")), id("c"), id("d")), bin(js_ast.BinOpComma, lx, lx), bin(js_ast.BinOpComma, bin(js_ast.BinOpComma, lx, id("a")), lx), bin(js_ast.BinOpComma, lx, bin(js_ast.BinOpComma, lx, lx)),
+		bin(js_ast.BinOpAssign, lx, lx), bin(js_ast.BinOpAddAssign, lx, id("a")), bin(js_ast.BinOpAssign, let, id("a")), bin(js_ast.BinOpAssign, dot(let, "x"), lx), bin(js_ast.BinOpIn, lx, lx), bin(js_ast.BinOpIn, let, id("a")), bin(js_ast.BinOpInstanceof, let, lx),
+		bin(js_ast.BinOpPow, lx, lx), bin(js_ast.BinOpPow, un(js_ast.UnOpNeg, lx), id("a")), bin(js_ast.BinOpAdd, bin(js_ast.BinOpMul, lx, id("a")), id("b")), bin(js_ast.BinOpMul, bin(js_ast.BinOpAdd, lx, id("a")), id("b")),
+		bin(js_ast.BinOpNullishCoalescing, bin(js_ast.BinOpLogicalOr, lx, id("a")), id("b")), idx(bin(js_ast.BinOpAdd, lx, id("a")), id("b")), dot(cond(lx, id("a"), id("b")), "e"), call(bin(js_ast.BinOpComma, lx, id("a"))))
+	for _, b := range bins {
+		out = append(out, bin(b, lx, id("a")))
+	}
 	// "in" in every position the forbidIn flag reaches or stops at (these are also printed as for-loop initialisers)
 	ain := bin(js_ast.BinOpIn, id("a"), id("b"))
 	out = append(out, ain, bin(js_ast.BinOpIn, ain, id("c")), bin(js_ast.BinOpIn, id("c"), ain), un(js_ast.UnOpNot, ain), un(js_ast.UnOpTypeof, ain),
@@ -575,32 +635,36 @@ func runC13(seed uint64, n int, tier string, outDir string) []*Stats {
 		if containsIn(e) || i%5 == 0 {
 			for _, m := range modes {
 				full, init := printTreeForInit(e, m)
-				items = append(items, fmt.Sprintf("(%s,true,%s,%s)", CBool(m), e.coq(m), CBytes([]byte(init))))
+				items = append(items, fmt.Sprintf("(%s,true,false,%s,%s)", CBool(m), e.coq(m), CBytes([]byte(init))))
 				st.Note("print-tree-forbid-in", init+fmt.Sprint(m), containsIn(e))
 				other := ""
 				if idOnly(e) {
 					other, _ = printTreeForInit(e, !m)
 					other = strings.TrimSuffix(strings.TrimSuffix(other, "\n"), ";")
 				}
-				printed = append(printed, printedTree{full, m, other, i < nGrid})
+				if !containsAwait(e) && !startsWithLetIndex(e) {
+					printed = append(printed, printedTree{full, m, other, i < nGrid})
+				}
 			}
 		}
 		for _, m := range modes {
 			out := printTree(e, m)
-			items = append(items, fmt.Sprintf("(%s,false,%s,%s)", CBool(m), e.coq(m), CBytes([]byte(out))))
+			items = append(items, fmt.Sprintf("(%s,false,true,%s,%s)", CBool(m), e.coq(m), CBytes([]byte(out))))
 			st.Note("print-tree", out+fmt.Sprint(m), e.k == xUn || e.k == xBin)
 			other := ""
 			if idOnly(e) {
 				other = printTree(e, !m)
 			}
-			printed = append(printed, printedTree{out, m, other, i < nGrid})
+			if !containsAwait(e) {
+				printed = append(printed, printedTree{out, m, other, i < nGrid})
+			}
 			if i%97 == 0 {
 				st.Sample(map[string]interface{}{"tree_printed": out, "minify_whitespace": m})
 			}
 		}
 	}
-	cf.AddCases("print_cases", "bool * bool * expr * bytes", "check_print", items)
-	cf.AddCases("relex_cases", "bool * bool * expr * bytes", "check_relex", items)
+	cf.AddCases("print_cases", "bool * bool * bool * expr * bytes", "check_print", items)
+	cf.AddCases("relex_cases", "bool * bool * bool * expr * bytes", "check_relex", items)
 	// the specification parser is slow under vm_compute: every third case (both modes of a grid tree alternate)
 	var third []string
 	for i, it := range items {
@@ -608,7 +672,7 @@ func runC13(seed uint64, n int, tier string, outDir string) []*Stats {
 			third = append(third, it)
 		}
 	}
-	cf.AddCases("reparse_cases", "bool * bool * expr * bytes", "check_reparse", third)
+	cf.AddCases("reparse_cases", "bool * bool * bool * expr * bytes", "check_reparse", third)
 
 	// --- glue streams through api.Transform
 	glue(r, st, n, tier, printed)
